@@ -34,6 +34,12 @@ def setup() -> str:
     if not f2.startswith(root + os.sep) or not f2.endswith(".py"):
         raise RuntimeError(f"pyjelly.serialize.streams resolved to {f2}")
     _register_rdflib()
+    import logging  # noqa: PLC0415
+    import warnings  # noqa: PLC0415
+
+    logging.getLogger("rdflib").setLevel(logging.CRITICAL)
+    logging.getLogger("rdflib.term").setLevel(logging.CRITICAL)
+    warnings.simplefilter("ignore")
     _done = True
     return root
 
